@@ -126,6 +126,7 @@ func loadProg(repo string, tags string, overlay map[string][]byte) (*Prog, error
 	}
 	sort.Slice(P.AllFns, func(i, j int) bool { return FnName(P.AllFns[i]) < FnName(P.AllFns[j]) })
 	curFieldFacts = computeFieldFacts(prog, P.AllFns)
+	fnsOfProg[prog] = P.AllFns
 	return P, nil
 }
 
@@ -255,3 +256,6 @@ func (P *Prog) pkgIntConst(pkgShort, name string) (int64, bool) {
 	}
 	return 0, false
 }
+
+// fnsOfProg: the analysed functions of each loaded view, for whole-package scans keyed by a value's program
+var fnsOfProg = map[*ssa.Program][]*ssa.Function{}
